@@ -3,6 +3,8 @@
 package store
 
 import (
+	"time"
+
 	"github.com/douban/gobeansdb/cmem"
 	"github.com/douban/gobeansdb/config"
 	vrt "github.com/douban/gobeansdb/zzvrt"
@@ -65,7 +67,28 @@ func (s *scen) open() {
 	s.st = st
 }
 
-func (s *scen) flush() { s.st.flushdatas(true) }
+func (s *scen) flush() { s.settle(); s.st.flushdatas(true) }
+
+// settle waits until the asynchronous flush that follows a data-file rotation has run
+// (the ordinary schedule; schedules where it has not run yet are explored by C02/C04 harnesses).
+func (s *scen) settle() {
+	ds := s.st.buckets[0].datas
+	for i := 0; i < 2000; i++ {
+		done := true
+		for c := 0; c < ds.newHead; c++ {
+			ds.chunks[c].Lock()
+			if len(ds.chunks[c].wbuf) > 0 {
+				done = false
+			}
+			ds.chunks[c].Unlock()
+		}
+		if done {
+			return
+		}
+		time.Sleep(time.Millisecond)
+	}
+	vrt.Fail("post-rotation-flush-never-ran")
+}
 
 func abs32(x int32) int32 {
 	if x < 0 {
@@ -82,6 +105,7 @@ func (s *scen) set(key string, body []byte, flag uint32, rev int32) {
 	p.Body = append([]byte{}, body...)
 	cmem.DBRL.SetData.AddSizeAndCount(p.CArray.Cap)
 	err := s.st.Set(ki, p)
+	s.settle()
 	vrt.Assert("set-no-error", err == nil)
 	m := s.model[key]
 	ao := abs32(m.ver)
@@ -113,6 +137,7 @@ func (s *scen) del(key string) {
 	ki := NewKeyInfoFromBytes([]byte(key), 0, false)
 	p := GetPayloadForDelete()
 	err := s.st.Set(ki, p)
+	s.settle()
 	m := s.model[key]
 	if m.ver > 0 {
 		vrt.Assert("delete-of-live-key-ok", err == nil)
@@ -129,6 +154,9 @@ func (s *scen) check(key, where string) {
 	ki := NewKeyInfoFromBytes([]byte(key), 0, false)
 	p, _, err := s.st.Get(ki, false)
 	m := s.model[key]
+	if err != nil {
+		vrt.Log("%s: get %s error: %v", where, key, err)
+	}
 	vrt.Assert(where+":get-no-error", err == nil)
 	if err != nil {
 		return
